@@ -1,0 +1,5 @@
+//go:build !verif
+
+package xy
+
+func verifEmit(string, ...int) {}
